@@ -34,8 +34,12 @@ def run_property(pid, tier="quick", seed=0, root=None, quiet=False, ctx=None):
         mod.check(ctx, R)
         if tier == "thorough" and hasattr(mod, "check_thorough"):
             mod.check_thorough(ctx, R)
-        if R.count_failures and not R.violations():
-            raise AnalysisError(R.count_failures[0][0], R.count_failures[0][1])
+        if R.count_failures:
+            # a lost anchor / uninterpretable construct: only a NEW violation (not a recorded known finding) outranks it
+            from .report import load_known_findings
+            kk = set(e["key"] for e in load_known_findings().get("known", []) if e.get("property") == pid)
+            if not [v for v in R.violations() if v.key not in kk]:
+                raise AnalysisError(R.count_failures[0][0], R.count_failures[0][1])
     except AnalysisError as e:
         print("ANALYSIS-ERROR property=%s rule=%s reason=%s" % (pid, e.rule, e.reason))
         return 2, R, [], []
